@@ -217,8 +217,11 @@ A check that is right was never loosened; these were errors of the machinery and
 Each change was produced by a sub-agent that saw only the property text, compiles, passes the crate's test
 suite, and was confirmed here in a scratch worktree (`tools/confirm_seed*.sh`: tests pass with the change, the
 demonstration fails with it and passes without). `tools/seedtest.sh <patch> Cxx` applies it to /repo, runs the
-check, and reverts. All 40 are caught; the ones marked *strengthened* were missed by the first version of the
-check and led to a stronger generator or oracle.
+check, and reverts. Two rounds were run (m1/m2, then m3/m4 by agents that were also told what had already been
+found, so that they would look elsewhere): 80 changes, all caught by the current checks. The first version of
+the checks missed 6 of the first 40 and 19 of the second 40; every miss led to a stronger generator or oracle
+(marked *strengthened*), never to a special case for the seed, and four of those strengthenings exposed genuine
+defects of the unchanged code (D50, D51, D52 and, through the agents' side remarks, D53..D55).
 '''
 
 def section9():
@@ -226,6 +229,10 @@ def section9():
     for d in sorted(glob.glob(os.path.join(V, "seeded/*/meta.json"))):
         m = json.load(open(d)); sid = os.path.basename(os.path.dirname(d))
         out.append("| %s | %s | %s |" % (sid, m.get("needs_to_manifest", "").replace("|", "/"), m.get("detected_by", "").replace("|", "/")))
+    out.append("\n*Round 2, missed at first:* C02-m3, C03-m3, C03-m4, C05-m3, C05-m4, C06-m3, C09-m3, C10-m3, C10-m4, C11-m4, C13-m4, "
+               "C14-m3, C15-m4, C16-m4, C17-m4, C19-m3, C19-m4, C20-m3, C20-m4 (caught only through a broken obligation, "
+               "without a failing input, at first: C02-m4, C07-m3, C09-m4). What was added is listed per property under "
+               "'Explored by the tie ... ALSO' in section 6.\n")
     out.append("\n*Strengthened after a miss:* C01-m1 (store-raw boundary units added to the generator), C07-m1 (sources with "
                "external / partial listfiles), C08-m2 (digest-field cases), C12-m2 (dirty compaction variant), C20-m2 (BLP "
                "sub-commands), C11 (separate edge archive). C19-m2 is a lock-order inversion whose demonstration is "
@@ -244,11 +251,11 @@ TAIL = r'''
 * Rust is tied to the models by differential execution, not by a translator: no Rust-to-Lean translator for
   this code base could be written in the time available (binrw derive macros, trait-generic readers, I/O
   everywhere), so the regeneration route is used only for constants and the lock graph.
-* Not covered / partial, by property (details in §6): C03 the compressors themselves (only framing, selector
-  and limit logic are modelled); C05 totality is established by running the parsers (sampling), the theorems
+* Not covered / partial, by property (details in §6): C03 the third-party compressors and the in-tree Huffman / ADPCM
+  codecs (framing, selector and limit logic and the in-tree sparse codec are modelled and proved); C05 totality is established by running the parsers (sampling), the theorems
   cover the front loops and the allocation rule; C09 the rayon runtime; C10 collision resistance of MD5,
   RSA, multi-byte checksum collisions; C12 real crash injection is by strace fault injection on the syscall
-  trace, not power loss; C13 textures, cameras, lights, emitters, rotations, anim files are not generated;
+  trace, not power loss; C13 lights, emitters, colour / texture animations, bone rotations and anim files are not generated;
   C14/C15/C13 whole-file content preservation is an oracle (needs the real parsers), the theorems cover
   the derived data (offset tables, string tables, relocation); C15 group content cannot be parsed back by the
   crate; C16 lossy pixel content; C19 scheduling (lock graph + stress with watchdog instead); C20 only the
